@@ -278,14 +278,14 @@ static long g_idx;
 static void df_on_alarm(int sig) {
     /* in-process watchdog (like libFuzzer -timeout): only marks the input as stalled; the driver decides */
     char buf[64];
-    int  n = snprintf(buf, sizeof(buf), "T %ld\n", g_idx);
+    int  n = snprintf(buf, sizeof(buf), "\nT %ld\n", g_idx);
     (void)sig;
     if (n > 0 && write(1, buf, (size_t)n) < 0) {}
     _exit(78);
 }
 /* returns 1 when the process must stop (ASan report with --stop-on-asan) */
 static int df_run_named(const char *name, const uint8_t *d, size_t n) {
-    printf("B %ld %s %zu\n", g_idx, name, n);
+    printf("\nB %ld %s %zu\n", g_idx, name, n);
     fflush(stdout);
     unsigned d0 = g_dirty;
     g_asan_reports = g_asan_reads = 0;
@@ -301,7 +301,7 @@ static int df_run_named(const char *name, const uint8_t *d, size_t n) {
     free(cp);
     /* asan: 0 none, 2 only invalid READs (state not corrupted), 1 anything else (write, free, ...) */
     unsigned asan = g_asan_reports == 0 ? 0 : (g_asan_reads >= g_asan_reports ? 2 : 1);
-    printf("E %ld rc=%x calls=%u pics=%u obus=%x dirty=%u asan=%u ph=%llx\n", g_idx, g_last_rc, g_calls, g_pics, g_obu_mask,
+    printf("\nE %ld rc=%x calls=%u pics=%u obus=%x dirty=%u asan=%u ph=%llx\n", g_idx, g_last_rc, g_calls, g_pics, g_obu_mask,
            g_dirty - d0, asan, (unsigned long long)g_pic_hash);
     fflush(stdout);
     g_idx++;
